@@ -75,6 +75,8 @@ class Opts:
         self.force_infection = False
         self.force_strat = False
         self.shared_names_bias = 0.0  # probability that a new flow re-uses the NAME of an earlier flow of any kind (names need not be unique)
+        self.rebalance_repeat_bias = 0.0  # probability of the sequence A, B, A' of population-split adjustments (A' repeats A's stratification and filter with other proportions; B overlaps A)
+        self.chain_adjust_bias = 0.0  # probability that a later stratification re-adjusts a flow an earlier stratification already adjusted (Multiply / Overwrite chains across stratifications)
         self.mixing_pair_bias = 0.0   # probability of forcing two full mixing-carrying stratifications of different flavours (const / param / timevar), in random order
         for k, v in kw.items():
             if not hasattr(self, k):
@@ -266,6 +268,12 @@ class Gen:
                 if r.random() < o.rebalance_prob:
                     rb = self.gen_rebalance()
                     if rb: ops.append(rb)
+        if o.rebalance_repeat_bias > 0 and o.allow_rebalance and self.strats and r.random() < o.rebalance_repeat_bias:
+            a = self.gen_rebalance()
+            b = self.gen_rebalance(overlap=a)
+            if b["filter"] == a["filter"]:
+                b["filter"] = []
+            ops += [a, b, self.gen_rebalance(like=a)]
         if o.allow_array_pop and r.random() < 0.3:
             ops.append({"op": "init_pop_array", "arr": [self.static_expr(ARR_POOL) for _ in self.comps]})
             self.count("array_pop")
@@ -436,16 +444,24 @@ class Gen:
         if o.allow_adjust and not o.unadjusted and self.flows:
             for _ in range(r.randint(0, 3)):
                 fname, fkind, fsrc, fdst = r.choice(self.flows)
+                chained = False
+                if o.chain_adjust_bias > 0 and getattr(self, "adjusted", None) and r.random() < o.chain_adjust_bias:
+                    fname, fkind, fsrc, fdst = r.choice(self.adjusted)
+                    chained = True
                 # birth flows into an age stratification must not be adjusted
                 if kind == "age" and fkind in ("crude_birth", "repl_birth"):
                     continue
                 adjs = []
                 for s in strata_final:
                     z = r.random()
+                    if chained:
+                        z = 0.1 + 0.9 * z if z < 0.1 else (0.75 + z / 4 if z > 0.5 else z)    # fewer None, more Overwrite
                     if z < 0.2:
                         adjs.append([s, None]); self.count("adj:none")
                     elif z < 0.7:
                         e = self.rate_expr(small=False)
+                        if o.chain_adjust_bias > 0 and o.allow_params and r.random() < 0.5:
+                            e = P(self.new_param())      # a named multiplier (its literal twin is folded differently by the code)
                         a = ["mul", e]
                         if "c" in e and r.random() < 0.4: a.append("bare")
                         adjs.append([s, a]); self.count("adj:mul")
@@ -462,6 +478,10 @@ class Gen:
                         if flt: d["dst"] = flt
                     if d.get("src") or d.get("dst"): self.count("adj:filtered")
                 fadj.append(d)
+                if o.chain_adjust_bias > 0:
+                    if not hasattr(self, "adjusted"): self.adjusted = []
+                    self.adjusted.append((fname, fkind, fsrc, fdst))
+                    if chained: self.count("adj:chained")
         if fadj: op["flow_adj"] = fadj
         # infectiousness adjustments
         if o.allow_inf_adjust and not o.unadjusted and r.random() < 0.5:
@@ -509,9 +529,17 @@ class Gen:
         self.count("strat:" + kind + (":full" if comps == list(self.orig) else ":partial"))
         return op
 
-    def gen_rebalance(self):
+    def gen_rebalance(self, like=None, overlap=None):
         r = self.r
-        s = r.choice(self.strats)
+        if like is not None:
+            # same stratification and filter, other proportions
+            s = [t for t in self.strats if t["name"] == like["strat"]][0]
+            strata = sorted(s["strata"], key=int) if s["kind"] == "age" else s["strata"]
+            cands = [p for p in SPLITS[len(strata)] if [C(v) for v in p] != [kv[1] for kv in like["props"]]] or SPLITS[len(strata)]
+            props = r.choice(cands)
+            self.count("rebalance:repeat")
+            return {"op": "adjust_split", "strat": s["name"], "filter": [list(f) for f in like["filter"]], "props": [[k, C(v)] for k, v in zip(strata, props)]}
+        s = r.choice(self.strats) if overlap is None else [t for t in self.strats if t["name"] == overlap["strat"]][0]
         strata = sorted(s["strata"], key=int) if s["kind"] == "age" else s["strata"]
         props = r.choice(SPLITS[len(strata)])
         others = [t for t in self.strats if t["name"] != s["name"]]
